@@ -119,6 +119,9 @@ pub struct WlSpec {
     /// stranger and must never become effective), -1 = one list fewer (must be rejected)
     #[serde(default)]
     pub lists_delta: i8,
+    /// the whitelist's only admin (default: the minter's creator)
+    #[serde(default)]
+    pub admin: Option<String>,
 }
 /// the minter family member a case runs on: 0..=5 the vending minters, 6..=8 the open-edition minters
 #[derive(Clone, Copy, Debug)]
@@ -191,32 +194,32 @@ impl WlSpec {
         match self.kind.as_str() {
             "plain" => (
                 json!({"members": addrs(s0), "start_time": t(s0.start), "end_time": t(s0.end), "mint_price": price,
-                    "per_address_limit": s0.limit, "member_limit": 1000, "admins": [CREATOR], "admins_mutable": true}),
+                    "per_address_limit": s0.limit, "member_limit": 1000, "admins": [self.admin.clone().unwrap_or(CREATOR.to_string())], "admins_mutable": true}),
                 100_000_000,
             ),
             "flex" => (
                 json!({"members": flexm(s0), "start_time": t(s0.start), "end_time": t(s0.end), "mint_price": price,
-                    "member_limit": 1000, "admins": [CREATOR], "admins_mutable": true, "whale_cap": null}),
+                    "member_limit": 1000, "admins": [self.admin.clone().unwrap_or(CREATOR.to_string())], "admins_mutable": true, "whale_cap": null}),
                 100_000_000,
             ),
             "tiered" => (
                 json!({"members": self.delta_lists(self.stages.iter().map(addrs).map(Value::from).collect(), json!([STRANGER])), "stages": stages(true),
-                    "member_limit": 1000, "admins": [CREATOR], "admins_mutable": true}),
+                    "member_limit": 1000, "admins": [self.admin.clone().unwrap_or(CREATOR.to_string())], "admins_mutable": true}),
                 100_000_000,
             ),
             "tiered-flex" => (
                 json!({"members": self.delta_lists(self.stages.iter().map(flexm).map(Value::from).collect(), json!([{"address": STRANGER, "mint_count": 3}])), "stages": stages(false),
-                    "member_limit": 1000, "admins": [CREATOR], "admins_mutable": true, "whale_cap": null}),
+                    "member_limit": 1000, "admins": [self.admin.clone().unwrap_or(CREATOR.to_string())], "admins_mutable": true, "whale_cap": null}),
                 100_000_000,
             ),
             "merkle" => (
                 json!({"merkle_root": self.tree(0).root, "merkle_tree_uri": null, "start_time": t(s0.start), "end_time": t(s0.end),
-                    "mint_price": price, "per_address_limit": s0.limit, "admins": [CREATOR], "admins_mutable": true}),
+                    "mint_price": price, "per_address_limit": s0.limit, "admins": [self.admin.clone().unwrap_or(CREATOR.to_string())], "admins_mutable": true}),
                 1_000_000_000,
             ),
             _ => (
                 json!({"stages": stages(true), "merkle_roots": (0..self.stages.len()).map(|i| self.tree(i).root).collect::<Vec<_>>(),
-                    "merkle_tree_uris": null, "admins": [CREATOR], "admins_mutable": true}),
+                    "merkle_tree_uris": null, "admins": [self.admin.clone().unwrap_or(CREATOR.to_string())], "admins_mutable": true}),
                 1_000_000_000,
             ),
         }
@@ -242,6 +245,11 @@ pub enum COp {
     WlAddStage { stage: StageSpec },
     WlRemoveStage { stage: u32 },
     WlUpdateStage { stage: u32, name: Option<String>, start: Option<u64>, end: Option<u64>, price: Option<u128>, limit: Option<u32>, cap: Option<u32> },
+    /// IncreaseMemberLimit (list kinds; 1000 -> 1001.. costs 100 STARS); it has no admin check in the unchanged tree
+    WlIncreaseMemberLimit { limit: u32 },
+    /// the same whitelist admin op sent by somebody who is NOT an admin of the whitelist (a buyer, a member, the
+    /// stranger, the minter's creator when the whitelist has another admin): must be rejected
+    By { who: String, op: Box<COp> },
     /// the admin airdrops (MintTo) until nothing is mintable
     SellOut,
     /// an open-edition-only op (UpdateEndTime ...); ignored on the vending minters
@@ -346,6 +354,8 @@ fn op_kind(op: &COp) -> &'static str {
         COp::WlAddStage { .. } => "wl_add_stage",
         COp::WlRemoveStage { .. } => "wl_remove_stage",
         COp::WlUpdateStage { .. } => "wl_update_stage",
+        COp::WlIncreaseMemberLimit { .. } => "wl_increase_member_limit",
+        COp::By { .. } => "wl_op_by_non_admin",
         COp::SellOut => "mint_to",
         COp::E(OeOp::UpdateEndTime { .. }) => "update_end_time",
         COp::E(_) => "other",
@@ -918,6 +928,7 @@ fn wl_admin_msg(cop: &COp, k: &str, ledger_t0: u64) -> Value {
             json!({"add_stage": {"stage": sg, "members": members}})
         }
         COp::WlRemoveStage { stage } => json!({"remove_stage": {"stage_id": stage}}),
+        COp::WlIncreaseMemberLimit { limit } => json!({"increase_member_limit": limit}),
         COp::WlUpdateStage { stage, name, start, end, price, limit, cap } => {
             let t0 = ledger_t0;
             let mut m = json!({"stage_id": stage});
@@ -950,13 +961,31 @@ fn wl_admin_msg(cop: &COp, k: &str, ledger_t0: u64) -> Value {
 fn do_wl_admin(app: &mut chain::App, mon: &mut Mon, wl: &str, cop: &COp) -> bool {
     let k = mon.kinds.get(wl).cloned().unwrap_or_default();
     let t0 = mon.ledgers.get(wl).map_or(0, |l| l.t0);
-    let msg = wl_admin_msg(cop, &k, t0);
-    let r = chain::exec(app, CREATOR, &Addr::unchecked(wl), &msg, &[]);
+    let admin = mon.specs.get(wl).and_then(|sp| sp.admin.clone()).unwrap_or(CREATOR.to_string());
+    let (sender, inner): (String, &COp) = match cop {
+        COp::By { who, op } => (who.clone(), op.as_ref()),
+        _ => (admin.clone(), cop),
+    };
+    let msg = wl_admin_msg(inner, &k, t0);
+    let funds = match inner {
+        COp::WlIncreaseMemberLimit { .. } => vec![cosmwasm_std::coin(100_000_000, NATIVE)],
+        _ => vec![],
+    };
+    let r = chain::exec(app, &sender, &Addr::unchecked(wl), &msg, &funds);
     if r.is_ok() {
-        if let Some(l) = mon.ledgers.get_mut(wl) {
-            l.apply(cop);
+        if sender == admin {
+            // only what the ADMIN sent (and the whitelist accepted) is what the admin set
+            if let Some(l) = mon.ledgers.get_mut(wl) {
+                l.apply(inner);
+            }
+            mon.readback(app, wl, &format!("{:?}", inner));
+        } else if !matches!(inner, COp::WlIncreaseMemberLimit { .. }) {
+            // the ledger stays as it was: the mint monitors will judge later mints against the admin's settings
+            mon.violations.push((
+                "C03:whitelist-op-by-non-admin-accepted".into(),
+                format!("{} + {} whitelist (admin {}): {:?} sent by {} was accepted", mon.fam.name, k, admin, inner, sender),
+            ));
         }
-        mon.readback(app, wl, &format!("{:?}", cop));
     }
     r.is_ok()
 }
@@ -1040,7 +1069,7 @@ fn run_case_vending(c: &Case) -> CaseResult {
                 }
                 continue;
             }
-            COp::WlLimit { .. } | COp::WlCap { .. } | COp::WlAdd { .. } | COp::WlRemove { .. } | COp::WlAddStage { .. } | COp::WlRemoveStage { .. } | COp::WlUpdateStage { .. } => {
+            COp::WlLimit { .. } | COp::WlCap { .. } | COp::WlAdd { .. } | COp::WlRemove { .. } | COp::WlAddStage { .. } | COp::WlRemoveStage { .. } | COp::WlUpdateStage { .. } | COp::WlIncreaseMemberLimit { .. } | COp::By { .. } => {
                 let Some(a) = w.minter_config()["whitelist"].as_str().map(|s| s.to_string()) else { continue };
                 let before = w.balances_raw();
                 let ok = do_wl_admin(&mut w.app, &mut mon, &a, cop);
@@ -1191,7 +1220,10 @@ fn run_case_oe(c: &Case) -> CaseResult {
                 made_i += 1;
                 continue;
             }
-            COp::WlLimit { .. } | COp::WlCap { .. } | COp::WlAdd { .. } | COp::WlRemove { .. } | COp::WlAddStage { .. } | COp::WlRemoveStage { .. } | COp::WlUpdateStage { .. } => {
+            COp::WlLimit { .. } | COp::WlCap { .. } | COp::WlAdd { .. } | COp::WlRemove { .. } | COp::WlAddStage { .. } | COp::WlRemoveStage { .. } | COp::WlUpdateStage { .. } | COp::WlIncreaseMemberLimit { .. } | COp::By { .. } => {
+                if matches!(cop, COp::WlIncreaseMemberLimit { .. }) || matches!(cop, COp::By { op, .. } if matches!(op.as_ref(), COp::WlIncreaseMemberLimit { .. })) {
+                    continue; // its fee would be a balance change this world does not track
+                }
                 let Some(a) = w.minter_config()["whitelist"].as_str().map(|s| s.to_string()) else { continue };
                 let ok = do_wl_admin(&mut w.app, &mut mon, &a, cop);
                 *res.hist.entry(hkey(ok)).or_insert(0) += 1;
@@ -1481,7 +1513,7 @@ fn plan_spec(p: &Plan, base: u64) -> WlSpec {
         }
         stages.push(StageSpec { start, end, limit: p.limits[i], cap: if tiered { p.caps[i] } else { None }, members, noalloc });
     }
-    WlSpec { kind: p.kind.to_string(), price: WL_PRICE, ibc: false, lists_delta: 0, stages }
+    WlSpec { kind: p.kind.to_string(), price: WL_PRICE, ibc: false, lists_delta: 0, admin: None, stages }
 }
 
 /// the entitlement the generator expects for buyer b in stage i (only to size the bursts)
@@ -1549,7 +1581,7 @@ fn history(rng: &mut Rng, p: &Plan, tag: &str) -> Case {
                 .iter()
                 .map(|(s, e)| StageSpec { start: *s, end: *e, limit: p.limits[0], cap: p.caps[0], members: members.iter().map(|m| (m.clone(), p.limits[0])).collect(), noalloc: vec![] })
                 .collect();
-            cur = Some(WlSpec { kind: p.kind.into(), price: WL_PRICE, ibc: false, lists_delta: 0, stages });
+            cur = Some(WlSpec { kind: p.kind.into(), price: WL_PRICE, ibc: false, lists_delta: 0, admin: None, stages });
         }
         if cur.is_none() || p.swap {
             if p.swap && cur.is_none() {
@@ -1606,6 +1638,11 @@ fn history(rng: &mut Rng, p: &Plan, tag: &str) -> Case {
                     1 => ops.push(COp::WlCap { stage: i as u32, cap: if rng.chance(1, 4) { None } else { Some(rng.range(1, 6) as u32) } }),
                     2 => ops.push(COp::WlAdd { stage: i as u32, who: (*rng.pick(&[BUYERS[2], STRANGER, BUYERS[0]])).into(), count: rng.range(1, 3) as u32 }),
                     _ => ops.push(COp::WlRemove { stage: i as u32, who: (*rng.pick(&BUYERS)).into() }),
+                }
+                if rng.chance(1, 3) {
+                    // ... or somebody who is not the admin tries the same
+                    let last = ops.pop().unwrap();
+                    ops.push(by(*rng.pick(&[BUYERS[0], BUYERS[1], BUYERS[2], STRANGER]), last));
                 }
                 ops.push(at(st.start + 50, rng.below(1000) as i64));
                 burst(rng, &pp, &v, &sp, i, &mut ops, false);
@@ -1926,7 +1963,7 @@ fn corpus() -> Vec<Case> {
         let sp = WlSpec {
             kind: "merkle".into(),
             price: WL_PRICE,
-            ibc: false, lists_delta: 0,
+            ibc: false, lists_delta: 0, admin: None,
             stages: vec![StageSpec { start: 1000, end: 2000, limit: 1, cap: None, members: vec![("buyer1".into(), 1), ("buyer2".into(), 2), ("stranger".into(), 0)], noalloc: vec!["stranger".into()] }],
         };
         let t = sp.tree(0);
@@ -1997,7 +2034,7 @@ fn corpus() -> Vec<Case> {
         let flat = |members: Vec<(&str, u32)>, noalloc: Vec<&str>| WlSpec {
             kind: "merkle".into(),
             price: WL_PRICE,
-            ibc: false, lists_delta: 0,
+            ibc: false, lists_delta: 0, admin: None,
             stages: vec![StageSpec {
                 start: 1000,
                 end: 2000,
@@ -2042,7 +2079,7 @@ fn corpus() -> Vec<Case> {
         let spt = WlSpec {
             kind: "tiered-merkle".into(),
             price: WL_PRICE,
-            ibc: false, lists_delta: 0,
+            ibc: false, lists_delta: 0, admin: None,
             stages: vec![
                 tst(1000, 1300, vec![("buyer1", 0), ("buyer2", 1), ("buyer3", l + 1), ("stranger", 2)], vec!["stranger"]),
                 tst(1300, 1600, vec![("buyer1", l), ("buyer2", 0), ("buyer3", u32::MAX), ("stranger", l - 1)], vec![]),
@@ -2081,7 +2118,7 @@ fn corpus() -> Vec<Case> {
         let sp = WlSpec {
             kind: kind.into(),
             price: WL_PRICE,
-            ibc: false, lists_delta: 0,
+            ibc: false, lists_delta: 0, admin: None,
             stages: vec![
                 StageSpec { start: 1000, end: 1300, limit: 1, cap: Some(2), members: vec![("buyer1".into(), 1), ("buyer2".into(), 1), ("buyer3".into(), 1)], noalloc: vec![] },
                 StageSpec { start: 1300, end: 1600, limit: 2, cap: Some(3), members: vec![("buyer1".into(), 2), ("buyer2".into(), 2)], noalloc: vec![] },
@@ -2166,7 +2203,7 @@ fn touching_stage_cases() -> Vec<Case> {
             let sp = WlSpec {
                 kind: kind.into(),
                 price: WL_PRICE,
-                ibc: false, lists_delta: 0,
+                ibc: false, lists_delta: 0, admin: None,
                 stages: vec![
                     st(1000, 1300, 3, Some(7), vec![("buyer1", 3), ("buyer3", 3)]),
                     st(1300, 1600, 1, Some(2), vec![("buyer2", 1), ("buyer3", 1)]),
@@ -2235,6 +2272,24 @@ fn touching_stage_cases() -> Vec<Case> {
     v
 }
 
+/// every whitelist admin op of `ops` is first tried by somebody who is not an admin of the whitelist (the buyers
+/// in turn, members included, and the stranger): must be rejected and change nothing
+fn with_intruders(ops: Vec<COp>, intruders: &[&str]) -> Vec<COp> {
+    let mut out = vec![];
+    let mut k = 0usize;
+    for op in ops {
+        if matches!(op, COp::WlLimit { .. } | COp::WlCap { .. } | COp::WlAdd { .. } | COp::WlRemove { .. } | COp::WlAddStage { .. } | COp::WlRemoveStage { .. } | COp::WlUpdateStage { .. } | COp::WlIncreaseMemberLimit { .. }) {
+            out.push(COp::By { who: intruders[k % intruders.len()].to_string(), op: Box::new(op.clone()) });
+            k += 1;
+        }
+        out.push(op);
+    }
+    out
+}
+fn by(who: &str, op: COp) -> COp {
+    COp::By { who: who.into(), op: Box::new(op) }
+}
+
 /// whitelist ADMIN operations between the mints, for every minter family x list-based whitelist kind: members
 /// added / removed / re-added (flex: with a smaller or larger allowance), stages removed (last and non-last) and
 /// rebuilt with different lists, limits, caps and allowances, UpdateStageConfig with every subset of its optional
@@ -2275,7 +2330,7 @@ fn wl_admin_cases() -> Vec<Case> {
                 ops,
             };
             if !is_tiered(kind) {
-                let sp = WlSpec { kind: kind.into(), price: WL_PRICE, ibc: false, lists_delta: 0, stages: vec![st(1000, 1600, 2, None, vec![("buyer1", 2), ("buyer2", 3)])] };
+                let sp = WlSpec { kind: kind.into(), price: WL_PRICE, ibc: false, lists_delta: 0, admin: None, stages: vec![st(1000, 1600, 2, None, vec![("buyer1", 2), ("buyer2", 3)])] };
                 let go = |ops: &mut Vec<COp>, who: &str, times: usize| {
                     for _ in 0..times {
                         ops.push(honest_mint(&var, &sp, 0, who, WL_PRICE));
@@ -2306,7 +2361,38 @@ fn wl_admin_cases() -> Vec<Case> {
                 go(&mut ops, "buyer1", 3);
                 go(&mut ops, STRANGER, 4);
                 go(&mut ops, "buyer3", 2);
-                v.push(mk("members", ops));
+                v.push(mk("members", with_intruders(ops, &["buyer1", "buyer2", "buyer3", STRANGER])));
+                // a member raises the limit / lists a friend itself, then both mint: the admin's figures (limit 1,
+                // allowances buyer1: 1, buyer2: 2; buyer3 and the stranger not listed) stay in force
+                let sp1 = WlSpec { kind: kind.into(), price: WL_PRICE, ibc: false, lists_delta: 0, admin: None, stages: vec![st(1000, 1600, 1, None, vec![("buyer1", 1), ("buyer2", 2)])] };
+                let mut ops = vec![COp::MakeWl(sp1.clone()), COp::Attach { who: CREATOR.into() }, at(100, 0)];
+                ops.push(by("buyer1", COp::WlLimit { stage: 0, limit: 3 }));
+                ops.push(by("buyer2", COp::WlAdd { stage: 0, who: "buyer3".into(), count: 2 }));
+                ops.push(by(STRANGER, COp::WlRemove { stage: 0, who: "buyer2".into() }));
+                ops.push(by("buyer3", COp::WlIncreaseMemberLimit { limit: 1001 }));
+                ops.push(COp::WlIncreaseMemberLimit { limit: 2001 });
+                ops.push(at(1000, 0));
+                go(&mut ops, "buyer1", 2);
+                ops.push(by("buyer1", COp::WlLimit { stage: 0, limit: 3 }));
+                ops.push(by("buyer3", COp::WlAdd { stage: 0, who: "buyer3".into(), count: 3 }));
+                ops.push(by("buyer1", COp::WlAdd { stage: 0, who: STRANGER.into(), count: 1 }));
+                go(&mut ops, "buyer1", 3);
+                go(&mut ops, "buyer2", 3);
+                go(&mut ops, "buyer3", 2);
+                go(&mut ops, STRANGER, 1);
+                v.push(mk("non-admin", ops));
+                // the whitelist is administered by somebody else: the minter's creator is an outsider there
+                let mut spx = sp1.clone();
+                spx.admin = Some(STRANGER.into());
+                let mut ops = vec![COp::MakeWl(spx.clone()), COp::Attach { who: CREATOR.into() }, at(100, 0)];
+                ops.push(by(CREATOR, COp::WlLimit { stage: 0, limit: 3 }));
+                ops.push(by(CREATOR, COp::WlAdd { stage: 0, who: "buyer3".into(), count: 2 }));
+                ops.push(COp::WlAdd { stage: 0, who: "buyer3".into(), count: 1 }); // its admin (the stranger) does
+                ops.push(at(1000, 0));
+                ops.push(by(CREATOR, COp::WlLimit { stage: 0, limit: 3 }));
+                go(&mut ops, "buyer1", 2);
+                go(&mut ops, "buyer3", 2);
+                v.push(mk("foreign-admin", ops));
                 continue;
             }
             // ---- tiered kinds ----
@@ -2314,7 +2400,7 @@ fn wl_admin_cases() -> Vec<Case> {
                 kind: kind.into(),
                 price: WL_PRICE,
                 ibc: false,
-                lists_delta: delta,
+                lists_delta: delta, admin: None,
                 stages: vec![
                     st(1000, 1300, 2, Some(3), vec![("buyer1", 2), ("buyer2", 2)]),
                     st(1400, 1700, 2, Some(3), vec![("buyer1", 2), ("buyer3", 2)]),
@@ -2360,6 +2446,18 @@ fn wl_admin_cases() -> Vec<Case> {
             go(&mut ops, "buyer1", 3);
             go(&mut ops, "buyer2", 2);
             go(&mut ops, "buyer3", 3);
+            let mut ops = with_intruders(ops, &["buyer2", "buyer3", STRANGER, "buyer1"]);
+            // members try to help themselves with figures of their own while stage 3 runs
+            ops.push(by("buyer2", COp::WlUpdateStage { stage: 2, name: None, start: None, end: None, price: None, limit: if flex { None } else { Some(3) }, cap: Some(30) }));
+            ops.push(by("buyer2", COp::WlAdd { stage: 2, who: "buyer2".into(), count: 3 }));
+            ops.push(by("buyer1", COp::WlAddStage { stage: st(2200, 2300, 3, None, vec![("buyer1", 3)]) }));
+            ops.push(by("buyer1", COp::WlRemoveStage { stage: 2 }));
+            ops.push(by(STRANGER, COp::WlCap { stage: 2, cap: Some(30) }));
+            if !flex {
+                ops.push(by("buyer3", COp::WlLimit { stage: 2, limit: 3 }));
+            }
+            go(&mut ops, "buyer3", 2);
+            go(&mut ops, "buyer2", 2);
             v.push(mk("rebuild", ops));
             // --- UpdateStageConfig with every subset of its optional fields, on the middle stage ---
             let sp2 = base(0);
@@ -2389,7 +2487,7 @@ fn wl_admin_cases() -> Vec<Case> {
             ops.push(COp::WlUpdateStage { stage: 1, name: None, start: None, end: Some(1710), price: None, limit: None, cap: None });
             go(&mut ops, "buyer2", 2);
             go(&mut ops, "buyer3", 1);
-            v.push(mk("update-subsets", ops));
+            v.push(mk("update-subsets", with_intruders(ops, &["buyer3", STRANGER])));
         }
     }
     v
@@ -2406,7 +2504,7 @@ fn incompatible_cases() -> Vec<Case> {
             }
             let tiered = is_tiered(kind);
             let mk = |s: u64, e: u64| StageSpec { start: s, end: e, limit: 1, cap: None, members: vec![("buyer1".into(), 2), ("buyer2".into(), 1)], noalloc: vec![] };
-            let sp = WlSpec { kind: kind.into(), price: WL_PRICE, ibc: false, lists_delta: 0, stages: if tiered { vec![mk(1000, 1300), mk(1300, 1600)] } else { vec![mk(1000, 1600)] } };
+            let sp = WlSpec { kind: kind.into(), price: WL_PRICE, ibc: false, lists_delta: 0, admin: None, stages: if tiered { vec![mk(1000, 1300), mk(1300, 1600)] } else { vec![mk(1000, 1600)] } };
             let pm = |who: &str, amt: u128| if var.merkle { mintm(who, amt, None, None, None) } else { mint(who, amt) };
             let mut ops = vec![COp::MakeWl(sp.clone()), COp::Attach { who: CREATOR.into() }, at(1000, 0)];
             for who in ["buyer1", "buyer1", "buyer2", "buyer3"] {
